@@ -24,7 +24,10 @@ RULE = ('direct: exhaustive over all live (table, name, value) pairs and all rev
         '(stream, field, configuration, code) or (table, name, value).')
 ASSUMPTIONS = ['registry/*.tsv are a faithful extraction of glibc elf.h and LLVM 14 ELF.h/ELFRelocs/DynamicTags.def/Dwarf.def '
                '(extract_registry.py: values printed by the C/C++ compiler of the image; run once, vendored)',
-               'construct Enum decoding is dict((v,k) for k,v in mapping.items()) (modelled by decodeIn, checked by the parse stream)']
+               'construct Enum decoding is dict((v,k) for k,v in mapping.items()) (modelled by decodeIn, checked by the parse stream)',
+               'which names are range markers (bounds of reserved ranges, masks, counts) is RANGE_MARKER: a naming convention '
+               '(gABI LOOS/HIOS/LOPROC/HIPROC/LORESERVE..., DWARF lo_user/hi_user, *NUM); the same classification is '
+               'Spec.isRangeMarker in Lean and tools/gen/extra_c17.py, tied three ways by the regen and selfcheck streams']
 FINDINGS = {}
 
 TSVS = ['elf_glibc.tsv', 'elf_llvm.tsv', 'dwarf_llvm.tsv', 'extra_specs.tsv']
@@ -101,7 +104,7 @@ def run_ties(ctx):
     sc = ctx.driver.ask({'p': 'C17', 'k': 'selfcheck'})
     case = {'what': 'literal Nat keys are the keys of their names'}
     ctx.out.case(case)
-    if not all(sc.get(k) for k in ('aliases', 'index_keys', 'registry_keys', 'key_tables')):
+    if not all(sc.get(k) for k in ('aliases', 'index_keys', 'registry_keys', 'key_tables', 'markers')):
         ctx.out.violation('correspondence', 'registry', case, got=sc, model='all true')
     # regenerated tables == live tables
     t = ctx.driver.ask({'p': 'C17', 'k': 'tables'})
@@ -115,6 +118,12 @@ def run_ties(ctx):
         ix = idx.get(tid)
         if g != items or ix is None or ix['enum'] != is_enum or [tuple(i) for i in ix['keys']] != [(name_key(a), b) for a, b in items]:
             ctx.out.violation('correspondence', 'regen', case, got=items[:5], model=(g or [])[:5])
+        # the marker flags the range-marker theorems walk are this module's RANGE_MARKER on the live names
+        flags = [bool(RANGE_MARKER.search(a)) for a, b in items]
+        if ix is not None and ix.get('markers') != flags:
+            bad = [a for (a, b), f, m in zip(items, flags, ix.get('markers') or []) if f != m]
+            ctx.out.violation('correspondence', 'regen', dict(case, what='regenerated marker flags == RANGE_MARKER on live names'),
+                              got=bad[:5] or 'length', model=flags[:5])
     missing = [tid for tid in gen if tid not in {x[0] for x in live} and '+' not in tid and not tid.startswith('SYNTH_')]
     if missing or not t['index_complete']:
         ctx.out.violation('correspondence', 'regen', {'what': 'tables only the generator sees'}, got=missing, model=[])
